@@ -9,8 +9,9 @@
 (*   cells        carrier.input_problem: the list of grid cells            *)
 (*                <<x1,y1,x2,y2,p>> (lattice corner coordinates, occupancy *)
 (*                numerator p over par.den).  Any origin, any spacing.     *)
-(*   DefineCoords definecoords(): sorted coordinate lists xs, ys; and the  *)
-(*                integer area weights area(carrier,b,True/False).         *)
+(*   DefineCoords definecoords(): sorted coordinate lists xs, ys, the       *)
+(*                next/prev dictionaries nbr; and the integer area weights *)
+(*                area(carrier, b, True/False) of every cell.              *)
 (*   three descriptions of the set of admitted shapes                      *)
 (*     Decl  IsKStogSel: the sentence of the property statement, on tuples *)
 (*           of cell sets (what a model of the CNF projects to);           *)
@@ -26,6 +27,14 @@
 (*   solve()      Call: sat iff some k-STOG has Obj >= bound, the result   *)
 (*                is any such shape and the next bound Obj+1; Iterate/Stop *)
 (*                are the improvement loop of main() (dif = last).         *)
+(*                Invariants: SolveMeetsProperty (every specified result   *)
+(*                satisfies the clauses of the statement), LoopOptimal     *)
+(*                (the loop ends on an optimal shape, unsat at Best+1),    *)
+(*                BoundGrows / StrictlyGrows (termination).                *)
+(*   Table / FastTable  the cost of every k-STOG, tabulated; FastTable is  *)
+(*                the integer (bit mask) form the trace specification      *)
+(*                evaluates on observed grids; TableIsObj and FastIsTable  *)
+(*                tie both to Obj.                                         *)
 (*                                                                         *)
 (* Sides follow the names used in rect.py, where y grows downwards:        *)
 (* "north" of a cell is the neighbour with the smaller y.                  *)
@@ -382,9 +391,11 @@ Stop == /\ ~EMIT /\ pc = "ret" /\ res.sat = 0 /\ pc' = "end"
 \* ---- behaviour generation: one case per (grid, k) and per (grid, occupancy, k)
 EmitGrid == /\ EMIT /\ mode = "gen" /\ pc = "start" /\ pc' = "emitted" /\ UNCHANGED <<mode, par, cells, k, xs, ys, nbr, wsel, wreal, boxes, sel, bound, res, last>>
             /\ PrintT(ToJson([kind |-> "models", cells |-> cells, k |-> k, den |-> par.den, ratio |-> par.ratio,
+                             fnum |-> par.fnum, fden |-> par.fden,
                              nshapes |-> Cardinality(KStog(k)), best |-> 0]))
 EmitSolve == /\ EMIT /\ mode = "solve" /\ pc = "start" /\ pc' = "emitted" /\ UNCHANGED <<mode, par, cells, k, xs, ys, nbr, wsel, wreal, boxes, sel, bound, res, last>>
              /\ PrintT(ToJson([kind |-> "solve", cells |-> cells, k |-> k, den |-> par.den, ratio |-> par.ratio,
+                              fnum |-> par.fnum, fden |-> par.fden,
                               nshapes |-> Cardinality(FastTable(k)),
                               best |-> LET T == FastTable(k) IN IF T # {} THEN BestT(T) ELSE 0]))
 
